@@ -8,6 +8,11 @@
 #include <set>
 
 #include "mp/nl-solver.h"
+extern "C" {
+#include "api/c/nl-model-c.h"
+#include "api/c/nl-solver-c.h"
+#include "api/c/nl-writer2-misc-c.h"
+}
 #include "mp/nl-reader.h"
 #include "mp/problem.h"
 #include "mp/backend-base.h"
@@ -53,7 +58,8 @@ sim::Json generate(const std::string& tier, uint64_t seed, uint64_t index) {
   sc.set("rlb", jarr(rlb)); sc.set("rub", jarr(rub)); sc.set("astart", jarr(astart)); sc.set("aindex", jarr(aindex)); sc.set("avalue", jarr(avalue));
   // objective
   sc.set("maximize", rng.chance(0.4));
-  sc.set("c0", rng.chance(0.5) ? 0.0 : (double)rng.range(-9, 9) + 0.25);
+  static const double kBigInt[] = {2147483648.0, 1e10, -5e12, 1e15, 4294967296.0, -2147483649.0, 9007199254740992.0};   // integral, beyond 32 bits
+  sc.set("c0", rng.chance(0.1) ? kBigInt[rng.below(7)] : rng.chance(0.5) ? 0.0 : (double)rng.range(-9, 9) + 0.25);
   bool have_c = rng.chance(0.85);
   sc.set("have_c", have_c);
   std::vector<double> c(n, 0.0);
@@ -73,6 +79,7 @@ sim::Json generate(const std::string& tier, uint64_t seed, uint64_t index) {
         if (qshape == 2 && j == i) { if (n == 1) continue; j = (i + 1) % n; }
         if (qshape == 4) j = onecol;
         double v = (double)(7 + (i * 3 + j) % 11) * (rng.chance(0.25) ? -1 : 1);
+        if (rng.chance(0.06)) v = 2 * kBigInt[rng.below(6)];          // 0.5*Q integral and beyond 32 bits
         qindex.push_back(j); qvalue.push_back(v);
         if (qshape == 3 && rng.chance(0.5)) { qindex.push_back(j); qvalue.push_back(v + 1); }
       }
@@ -99,11 +106,16 @@ sim::Json generate(const std::string& tier, uint64_t seed, uint64_t index) {
   if (rng.chance(0.4) && m > 0) add_suf("lazy", 1, false, m, 1);
   if (rng.chance(0.3) && m > 0) add_suf("creal", 1, true, m, 500);
   if (rng.chance(0.2)) add_suf("objsuf", 2, false, 1, 9);
+  if (rng.chance(0.25) && m > 0) {      // one name on several kinds of items (the way .sstatus is used)
+    add_suf("zsame", 0, false, n, 600); add_suf("zsame", 1, false, m, 700);
+    if (rng.chance(0.5)) add_suf("zsame", 2, true, 1, 800);
+  }
   if (rng.chance(0.2)) add_suf("probsuf", 3, true, 1, 77);
   sc.set("suffixes", sufs);
   sc.set("names", rng.chance(0.5));
   sc.set("text", rng.chance(0.5)); sc.set("comments", rng.chance(0.5));
   sc.set("points_seed", (double)rng.below(1000000));
+  sc.set("capi", rng.chance(0.35));       // build the model and drive the solver through the C flavour of the same API (api/c/*.h)
   sc.set("sens", rng.chance(0.5));        // ask for sensitivity ranges: real-valued variable and constraint suffixes come back
   sim::Json script = sim::Json::object();
   static const int codes[] = {0, 0, 0, 100, 200, 400};
@@ -132,7 +144,8 @@ double eval(mp::NumericExpr e, const std::vector<double>& x) {
   throw std::runtime_error("evaluator: unexpected expression kind in a QP objective");
 }
 
-bool near(double a, double b) { return a == b || std::fabs(a - b) <= 1e-9 * std::max(1.0, std::max(std::fabs(a), std::fabs(b))); }
+// sums are compared relative to the magnitude of their terms (cancellation between huge terms legitimately loses the small ones)
+bool near(double a, double b, double scale = 0) { return a == b || std::fabs(a - b) <= 1e-9 * std::max(std::max(1.0, scale), std::max(std::fabs(a), std::fabs(b))); }
 
 int driver_via_system(const char* cmd) {
   // "simdrv <stub> -AMPL <opts...>"  -> in-process driver run
@@ -176,6 +189,12 @@ sim::RunResult run(const sim::Json& sc) {
   for (auto& p : sc["ws_x"].arr()) { wxi.push_back((int)p[(size_t)0].as_int()); wxv.push_back(p[(size_t)1].as_double()); }
   for (auto& p : sc["ws_y"].arr()) { wyi.push_back((int)p[(size_t)0].as_int()); wyv.push_back(p[(size_t)1].as_double()); }
 
+  auto ref_scale = [&](const std::vector<double>& x) {
+    double v = std::fabs(c0);
+    if (have_c) for (int j = 0; j < n; ++j) v += std::fabs(c[j] * x[j]);
+    if (quad) for (int i = 0; i < n; ++i) { size_t e = i + 1 < n ? qstart[i + 1] : qindex.size(); for (size_t p = qstart[i]; p < e; ++p) v += std::fabs(0.5 * qvalue[p] * x[i] * x[qindex[p]]); }
+    return v;
+  };
   auto ref_obj = [&](const std::vector<double>& x) {
     double v = c0;
     if (have_c) for (int j = 0; j < n; ++j) v += c[j] * x[j];
@@ -201,17 +220,45 @@ sim::RunResult run(const sim::Json& sc) {
   std::string exc;
   if (sigsetjmp(jb, 1) == 0) {
     try {
-      mp::NLModel mdl("c08");
-      mdl.SetCols({n, lb.data(), ub.data(), ty.data()});
-      if (names) mdl.SetColNames(cnp.data());
-      mdl.SetRows(m, rlb.data(), rub.data(), {m, NLW2_MatrixFormatRowwise, aindex.size(), astart.data(), aindex.data(), avalue.data()});
-      if (names) mdl.SetRowNames(rnp.data());
-      mdl.SetLinearObjective(sc["maximize"].as_bool() ? NLW2_ObjSenseMaximize : NLW2_ObjSenseMinimize, c0, have_c ? c.data() : nullptr);
-      if (quad) mdl.SetHessian((NLW2_HessianFormat)sc["qformat"].as_int(), {n, NLW2_MatrixFormatIrrelevant, qindex.size(), qstart.data(), qindex.data(), qvalue.data()});
-      if (names) mdl.SetObjName("myobj");
-      if (!wxi.empty()) mdl.SetWarmstart({(int)wxi.size(), wxi.data(), wxv.data()});
-      if (!wyi.empty()) mdl.SetDualWarmstart({(int)wyi.size(), wyi.data(), wyv.data()});
-      for (auto& s : sc["suffixes"].arr()) mdl.AddSuffix(mp::NLSuffix(s["name"].as_str(), (int)s["kind"].as_int(), dvec(s["values"])));
+      const bool capi = sc["capi"].as_bool();
+      mp::NLModel mdl_cpp("c08");
+      NLW2_NLModel_C cm{};
+      std::vector<std::vector<double>> sufvals;      // C API: suffix value arrays must outlive the call
+      std::vector<std::string> sufnames;
+      if (!capi) {
+        mp::NLModel& mdl = mdl_cpp;
+        mdl.SetCols({n, lb.data(), ub.data(), ty.data()});
+        if (names) mdl.SetColNames(cnp.data());
+        mdl.SetRows(m, rlb.data(), rub.data(), {m, NLW2_MatrixFormatRowwise, aindex.size(), astart.data(), aindex.data(), avalue.data()});
+        if (names) mdl.SetRowNames(rnp.data());
+        mdl.SetLinearObjective(sc["maximize"].as_bool() ? NLW2_ObjSenseMaximize : NLW2_ObjSenseMinimize, c0, have_c ? c.data() : nullptr);
+        if (quad) mdl.SetHessian((NLW2_HessianFormat)sc["qformat"].as_int(), {n, NLW2_MatrixFormatIrrelevant, qindex.size(), qstart.data(), qindex.data(), qvalue.data()});
+        if (names) mdl.SetObjName("myobj");
+        if (!wxi.empty()) mdl.SetWarmstart({(int)wxi.size(), wxi.data(), wxv.data()});
+        if (!wyi.empty()) mdl.SetDualWarmstart({(int)wyi.size(), wyi.data(), wyv.data()});
+        for (auto& s : sc["suffixes"].arr()) mdl.AddSuffix(mp::NLSuffix(s["name"].as_str(), (int)s["kind"].as_int(), dvec(s["values"])));
+      } else {
+        cm = NLW2_MakeNLModel_C("c08");
+        NLW2_SetCols_C(&cm, n, lb.data(), ub.data(), ty.data());
+        if (names) NLW2_SetColNames_C(&cm, cnp.data());
+        NLW2_SetRows_C(&cm, m, rlb.data(), rub.data(), NLW2_MatrixFormatRowwise, aindex.size(), astart.data(), aindex.data(), avalue.data());
+        if (names) NLW2_SetRowNames_C(&cm, rnp.data());
+        NLW2_SetLinearObjective_C(&cm, sc["maximize"].as_bool() ? NLW2_ObjSenseMaximize : NLW2_ObjSenseMinimize, c0, have_c ? c.data() : nullptr);
+        if (quad) NLW2_SetHessian_C(&cm, (NLW2_HessianFormat)sc["qformat"].as_int(), n, qindex.size(), qstart.data(), qindex.data(), qvalue.data());
+        if (names) NLW2_SetObjName_C(&cm, "myobj");
+        if (!wxi.empty()) NLW2_SetWarmstart_C(&cm, {(int)wxi.size(), wxi.data(), wxv.data()});
+        if (!wyi.empty()) NLW2_SetDualWarmstart_C(&cm, {(int)wyi.size(), wyi.data(), wyv.data()});
+        sufvals.reserve(sc["suffixes"].size()); sufnames.reserve(sc["suffixes"].size());
+        for (auto& s : sc["suffixes"].arr()) {
+          sufvals.push_back(dvec(s["values"])); sufnames.push_back(s["name"].as_str());
+          NLW2_NLSuffix_C sf; sf.name_ = sufnames.back().c_str(); sf.table_ = ""; sf.kind_ = (int)s["kind"].as_int();
+          sf.numval_ = (int)sufvals.back().size(); sf.values_ = sufvals.back().data();
+          NLW2_AddSuffix_C(&cm, sf);
+        }
+        r.stats.set("front_end.c_api", 1);
+      }
+      // the C object wraps the same C++ class: everything below looks at the model through it
+      mp::NLModel& mdl = capi ? *static_cast<mp::NLModel*>(cm.p_data_) : mdl_cpp;
       NLW2_NLOptionsBasic_C opts = NLW2_MakeNLOptionsBasic_C_Default();
       opts.n_text_mode_ = sc["text"].as_bool(); opts.want_nl_comments_ = sc["comments"].as_bool();
       mp::NLUtils utils;
@@ -276,8 +323,8 @@ sim::RunResult run(const sim::Json& sc) {
               for (auto tm : obj.linear_expr()) lin += tm.coef() * xp[tm.var_index()];
               double nlv = obj.nonlinear_expr() ? eval(obj.nonlinear_expr(), xp) : 0.0;
               double want = ref_obj(x);
-              if (!near(lin + nlv, want)) flag("WRONG_OBJECTIVE", quad ? "quadratic" : "linear", "at a test point the written objective evaluates to " + gen::fmt_double(lin + nlv) + ", the given one to " + gen::fmt_double(want));
-              if (!near(mdl.ComputeObjValue(x.data()), want)) flag("WRONG_OBJ_RECOMPUTED", quad ? "quadratic" : "linear", "ComputeObjValue gives " + gen::fmt_double(mdl.ComputeObjValue(x.data())) + ", reference " + gen::fmt_double(want));
+              if (!near(lin + nlv, want, ref_scale(x))) flag("WRONG_OBJECTIVE", quad ? "quadratic" : "linear", "at a test point the written objective evaluates to " + gen::fmt_double(lin + nlv) + ", the given one to " + gen::fmt_double(want));
+              if (!near(mdl.ComputeObjValue(x.data()), want, ref_scale(x))) flag("WRONG_OBJ_RECOMPUTED", quad ? "quadratic" : "linear", "ComputeObjValue gives " + gen::fmt_double(mdl.ComputeObjValue(x.data())) + ", reference " + gen::fmt_double(want));
             }
           }
           // warm starts
@@ -328,12 +375,39 @@ sim::RunResult run(const sim::Json& sc) {
         }
       }
       // ---- (b) solve through the driver and read the solution back
-      mp::NLSolver nls(&utils);
-      nls.SetFileStub(g.scratch + "stub");
-      nls.SetNLOptions(opts);
-      if (!nls.LoadModel(static_cast<const mp::NLModel&>(mdl))) err_b = std::string("LoadModel: ") + nls.GetErrorMessage();
-      else if (!nls.Solve("simdrv", sc["sens"].as_bool() ? "sol:chk:mode=0 mip:basis=1 alg:basis=3 alg:sens=1" : "sol:chk:mode=0 mip:basis=1 alg:basis=3")) err_b = std::string("Solve: ") + nls.GetErrorMessage();
-      else { sol = nls.ReadSolution(); solved = true; if (!sol) err_b = std::string("ReadSolution: ") + nls.GetErrorMessage(); }
+      const char* drv_opts = sc["sens"].as_bool() ? "sol:chk:mode=0 mip:basis=1 alg:basis=3 alg:sens=1" : "sol:chk:mode=0 mip:basis=1 alg:basis=3";
+      if (!capi) {
+        mp::NLSolver nls(&utils);
+        nls.SetFileStub(g.scratch + "stub");
+        nls.SetNLOptions(opts);
+        if (!nls.LoadModel(static_cast<const mp::NLModel&>(mdl))) err_b = std::string("LoadModel: ") + nls.GetErrorMessage();
+        else if (!nls.Solve("simdrv", drv_opts)) err_b = std::string("Solve: ") + nls.GetErrorMessage();
+        else { sol = nls.ReadSolution(); solved = true; if (!sol) err_b = std::string("ReadSolution: ") + nls.GetErrorMessage(); }
+      } else {
+        NLW2_NLUtils_C cu = NLW2_MakeNLUtils_C_Default();
+        NLW2_NLSolver_C cs = NLW2_MakeNLSolver_C(&cu);
+        NLW2_SetFileStub_C(&cs, (g.scratch + "stub").c_str());
+        NLW2_SetNLOptions_C(&cs, opts);
+        if (!NLW2_LoadNLModel_C(&cs, &cm)) err_b = std::string("LoadModel: ") + NLW2_GetErrorMessage_C(&cs);
+        else if (!NLW2_RunSolver_C(&cs, "simdrv", drv_opts)) err_b = std::string("Solve: ") + NLW2_GetErrorMessage_C(&cs);
+        else {
+          NLW2_NLSolution_C cs_sol = NLW2_ReadSolution_C(&cs);
+          solved = true;
+          sol.solve_result_ = cs_sol.solve_result_;
+          sol.nbs_ = cs_sol.nbs_;
+          sol.solve_message_ = cs_sol.solve_message_ ? cs_sol.solve_message_ : "";
+          sol.x_.assign(cs_sol.x_, cs_sol.x_ + cs_sol.n_primal_values_);
+          sol.y_.assign(cs_sol.y_, cs_sol.y_ + cs_sol.n_dual_values_);
+          for (int k = 0; k < cs_sol.nsuf_; ++k) {
+            const NLW2_NLSuffix_C& sf = cs_sol.suffixes_[k];
+            sol.suffixes_.Add(mp::NLSuffix{sf.name_, sf.table_ ? sf.table_ : "", sf.kind_, std::vector<double>(sf.values_, sf.values_ + sf.numval_)});
+          }
+          if (!sol) err_b = std::string("ReadSolution: ") + NLW2_GetErrorMessage_C(&cs);
+        }
+        NLW2_DestroyNLSolver_C(&cs);
+        NLW2_DestroyNLUtils_C_Default(&cu);
+      }
+      if (capi) NLW2_DestroyNLModel_C(&cm);
     } catch (const std::exception& e) { exc = e.what(); }
     catch (...) { exc = "non-std exception"; }
   } else exited = true;
@@ -366,7 +440,7 @@ sim::RunResult run(const sim::Json& sc) {
       m2.SetCols({n, lb.data(), ub.data(), ty.data()});
       m2.SetLinearObjective(NLW2_ObjSenseMinimize, c0, have_c ? c.data() : nullptr);
       if (quad) m2.SetHessian((NLW2_HessianFormat)sc["qformat"].as_int(), {n, NLW2_MatrixFormatIrrelevant, qindex.size(), qstart.data(), qindex.data(), qvalue.data()});
-      if (have_c && !near(m2.ComputeObjValue(sol.x_.data()), ref_obj(sol.x_))) flag("WRONG_OBJ_RECOMPUTED", "solution", "objective recomputed from the returned solution differs from the reference");
+      if (have_c && !near(m2.ComputeObjValue(sol.x_.data()), ref_obj(sol.x_), ref_scale(sol.x_))) flag("WRONG_OBJ_RECOMPUTED", "solution", "objective recomputed from the returned solution differs from the reference");
     }
     // duals by content matching of rows
     if (viol.empty() && !sol.y_.empty()) {
@@ -394,6 +468,32 @@ sim::RunResult run(const sim::Json& sc) {
         r.stats.set("sstatus_returned", 1);
         if ((int)ss->values_.size() != n) flag("WRONG_SOLUTION_SIZE", "sstatus", "sstatus has " + std::to_string(ss->values_.size()) + " values");
         else for (int j = 0; j < n; ++j) if ((int)ss->values_[j] != SimBackend::StatusTag(salt, vperm[j])) flag("WRONG_SUFFIX_BACK", "sstatus", "column " + std::to_string(j) + " received status " + std::to_string((int)ss->values_[j]) + ", position " + std::to_string(vperm[j]) + " had " + std::to_string(SimBackend::StatusTag(salt, vperm[j])));
+      }
+    }
+  }
+  // constraint basis statuses come back too (same suffix name on another kind), matched by row content
+  if (viol.empty() && solved && sol) {
+    const mp::NLSuffix* vs = sol.suffixes_.Find("sstatus", 0);
+    const mp::NLSuffix* cs = sol.suffixes_.Find("sstatus", 1);
+    int nlin = 0; for (auto& dc : sm.cons) if (dc.is_alg && dc.group == mp::CG_Linear) ++nlin;
+    if (vs && !cs && nlin > 0 && m > 0) flag("SUFFIX_LOST_BACK", "sstatus/con", "the solution carries .sstatus for variables but none for constraints (" + std::to_string(sol.suffixes_.size()) + " suffixes returned)");
+    if (cs && (int)cs->values_.size() == m) {
+      int salt = (int)sc["script"]["basis_salt"].as_int();
+      r.stats.set("con_sstatus_returned", 1);
+      for (int i = 0; i < m; ++i) {
+        std::set<std::pair<int, double>> want;
+        size_t e = i + 1 < m ? astart[i + 1] : aindex.size();
+        for (size_t q = astart[i]; q < e; ++q) want.insert({vperm[aindex[q]], avalue[q]});
+        if (want.empty()) continue;
+        int found = 0, gidx = -1, grp = 0;
+        for (auto& dc : sm.cons) {
+          if (!dc.is_alg || !dc.quad.empty()) continue;
+          std::set<std::pair<int, double>> got;
+          for (auto& t : dc.lin) got.insert({t.var, t.coef});
+          if (got == want && dc.lb == rlb[i] && dc.ub == rub[i]) { ++found; gidx = dc.idx_in_group; grp = dc.group; }
+        }
+        if (found == 1 && grp == mp::CG_Linear && (int)cs->values_[i] != SimBackend::StatusTag(salt + grp, gidx))
+          flag("WRONG_SUFFIX_BACK", "sstatus/con", "row " + std::to_string(i) + " received status " + std::to_string((int)cs->values_[i]) + ", its image row has " + std::to_string(SimBackend::StatusTag(salt + grp, gidx)));
       }
     }
   }
